@@ -70,84 +70,15 @@ theorem natDigits_noSep (n : Nat) : ',' ∉ natDigits n ∧ '=' ∉ natDigits n 
   · intro hm; exact (digit_ne_sep _ (h _ hm)).1 rfl
   · intro hm; exact (digit_ne_sep _ (h _ hm)).2 rfl
 
-/-! ### split and join -/
-
-theorem splitOn_ne_nil (c : Char) (s : Str) : splitOn c s ≠ [] := by
-  induction s with
-  | nil => simp [splitOn]
-  | cons x t ih =>
-    unfold splitOn
-    split
-    · simp
-    · split <;> simp
-
-theorem splitOn_noSep (c : Char) (s : Str) (h : c ∉ s) : splitOn c s = [s] := by
-  induction s with
-  | nil => rfl
-  | cons x t ih =>
-    have hx : x ≠ c := fun e => h (by simp [e])
-    have ht : c ∉ t := fun e => h (by simp [e])
-    simp [splitOn, hx, ih ht]
-
-theorem splitOn_append_sep (c : Char) (s t : Str) (h : c ∉ s) : splitOn c (s ++ c :: t) = s :: splitOn c t := by
-  induction s with
-  | nil => simp [splitOn]
-  | cons x u ih =>
-    have hx : x ≠ c := fun e => h (by simp [e])
-    have hu : c ∉ u := fun e => h (by simp [e])
-    simp [splitOn, hx, ih hu]
-
-theorem splitOn_join (c : Char) (xs : List Str) (hne : xs ≠ []) (h : ∀ x ∈ xs, c ∉ x) :
-    splitOn c (joinWith c xs) = xs := by
-  induction xs with
-  | nil => exact absurd rfl hne
-  | cons x t ih =>
-    cases t with
-    | nil => simp [joinWith, splitOn_noSep c x (h x (by simp))]
-    | cons y u =>
-      simp only [joinWith]
-      rw [splitOn_append_sep c x _ (h x (by simp))]
-      rw [ih (by simp) (fun z hz => h z (by simp [hz]))]
-
-/-! ### one item -/
-
-theorem sliceInner_quoted (v : Str) : sliceInner ('\'' :: (v ++ ['\''])) = v := by
-  simp [sliceInner]
-
-theorem splitOn_item (k v : Str) (hk : '=' ∉ k) (hv : '=' ∉ v) :
-    splitOn '=' (renderItem k v) = [k, '\'' :: (v ++ ['\''])] := by
-  unfold renderItem
-  rw [splitOn_append_sep '=' k _ hk]
-  rw [splitOn_noSep]
-  intro hm
-  simp only [List.mem_cons, List.mem_append] at hm
-  rcases hm with h | h | h
-  · revert h; decide
-  · exact hv h
-  · revert h; simp
-
-theorem renderItem_noComma (k v : Str) (hk : ',' ∉ k) (hv : ',' ∉ v) : ',' ∉ renderItem k v := by
-  unfold renderItem
-  intro hm
-  simp only [List.mem_append, List.mem_cons] at hm
-  rcases hm with h | h | h | h | h
-  · exact hk h
-  · revert h; decide
-  · revert h; decide
-  · exact hv h
-  · revert h; simp
-
-/-! ### `parseItem` on what the client renders -/
+/-! ### `parseItem` on the (key, value) pairs the client writes -/
 
 theorem parseItem_kw (a a' : RuleArgs) (k0 v : Str) (p : Param)
-    (hk : '=' ∉ k0) (hv : '=' ∉ v)
     (hkey : curBusKeys.contains (if k0 = "type".toList then "mtype".toList else k0) = true)
     (hp : Param.ofName (if k0 = "type".toList then "mtype".toList else k0) = some p)
     (hset : setParam a p v = some a') :
-    parseItem curBusKeys a (renderItem k0 v) = .ok a' := by
+    parseItem curBusKeys a (k0, v) = .ok a' := by
   unfold parseItem
-  rw [splitOn_item k0 v hk hv]
-  simp only [sliceInner_quoted, hkey, if_true, hp, hset]
+  simp only [hkey, if_true, hp, hset]
 
 theorem curBusKeys_lit : curBusKeys =
     [['m','t','y','p','e'], ['s','e','n','d','e','r'], ['i','n','t','e','r','f','a','c','e'], ['m','e','m','b','e','r'],
@@ -219,20 +150,10 @@ theorem not_suffix_path (init : Str) (c : Char) (hc : isAsciiDigit c = true) :
     rw [h1] at hc
     revert hc; decide
 
-theorem parseItem_arg (a : RuleArgs) (i : Nat) (v : Str) (hv : '=' ∉ v) :
-    parseItem curBusKeys a (renderItem (argKey i) v)
+theorem parseItem_arg (a : RuleArgs) (i : Nat) (v : Str) :
+    parseItem curBusKeys a (argKey i, v)
       = .ok { a with args := some (a.args.getD [] ++ [(i, v)]) } := by
-  have hk : '=' ∉ argKey i := by
-    rw [argKey_eq]
-    intro hm
-    simp only [List.mem_cons, List.append_nil] at hm
-    rcases hm with h | h | h | h
-    · revert h; decide
-    · revert h; decide
-    · revert h; decide
-    · exact (natDigits_noSep i).2 h
   unfold parseItem
-  rw [splitOn_item _ v hk hv]
   obtain ⟨init, c, hic, hc⟩ := natDigits_getLast i
   have hnt : ¬ (argKey i = "type".toList) := by
     rw [argKey_eq, type_lit]; simp
@@ -244,23 +165,12 @@ theorem parseItem_arg (a : RuleArgs) (i : Nat) (v : Str) (hv : '=' ∉ v) :
     rw [argKey_eq, path_lit, List.append_nil, hic]; exact not_suffix_path init c hc
   have hdrop : (argKey i).drop 3 = natDigits i := by
     rw [argKey_eq]; simp
-  simp only [sliceInner_quoted, hnt, if_false, hkw, hpre, hsuf, hdrop, parseNat_natDigits, Bool.false_eq_true, if_true]
+  simp only [hnt, if_false, hkw, hpre, hsuf, hdrop, parseNat_natDigits, Bool.false_eq_true, if_true]
 
-theorem parseItem_argPath (a : RuleArgs) (i : Nat) (v : Str) (hv : '=' ∉ v) :
-    parseItem curBusKeys a (renderItem (argPathKey i) v)
+theorem parseItem_argPath (a : RuleArgs) (i : Nat) (v : Str) :
+    parseItem curBusKeys a (argPathKey i, v)
       = .ok { a with argPaths := some (a.argPaths.getD [] ++ [(i, v)]) } := by
-  have hk : '=' ∉ argPathKey i := by
-    rw [argPathKey_eq]
-    intro hm
-    simp only [List.mem_cons, List.mem_append] at hm
-    rcases hm with h | h | h | h | h
-    · revert h; decide
-    · revert h; decide
-    · revert h; decide
-    · exact (natDigits_noSep i).2 h
-    · revert h; simp
   unfold parseItem
-  rw [splitOn_item _ v hk hv]
   have hnt : ¬ (argPathKey i = "type".toList) := by
     rw [argPathKey_eq, type_lit]; simp
   have hkw : curBusKeys.contains (argPathKey i) = false := by
@@ -280,11 +190,24 @@ theorem parseItem_argPath (a : RuleArgs) (i : Nat) (v : Str) (hv : '=' ∉ v) :
     rw [this, List.take_left']
     · simp
     · simp; omega
-  simp only [sliceInner_quoted, hnt, if_false, hkw, hpre, hsuf, hslice, parseNat_natDigits, Bool.false_eq_true, if_true]
+  simp only [hnt, if_false, hkw, hpre, hsuf, hslice, parseNat_natDigits, if_true, Bool.false_eq_true]
 
-/-! ### the whole text -/
+/-! ### the pairs of a rule -/
 
-theorem parseItems_append (kw : List Str) (l1 l2 : List Str) : ∀ a : RuleArgs,
+/-- (key, value) pairs in the order the client writes them. -/
+def optPair (k : Str) : Option Str → List (Str × Str)
+  | none => []
+  | some v => [(k, v)]
+
+def renderPairs (a : RuleArgs) : List (Str × Str) :=
+  optPair "type".toList a.mtype ++ optPair "sender".toList a.sender ++ optPair "interface".toList a.iface
+  ++ optPair "member".toList a.member ++ optPair "path".toList a.path
+  ++ optPair "path_namespace".toList a.pathNs ++ optPair "destination".toList a.dest
+  ++ (a.args.getD []).map (fun iv => (argKey iv.1, iv.2))
+  ++ (a.argPaths.getD []).map (fun iv => (argPathKey iv.1, iv.2))
+  ++ optPair "arg0namespace".toList a.arg0ns
+
+theorem parseItems_append (kw : List Str) (l1 l2 : List (Str × Str)) : ∀ a : RuleArgs,
     parseItems kw a (l1 ++ l2) =
       match parseItems kw a l1 with
       | .error e => .error e
@@ -298,23 +221,6 @@ theorem parseItems_append (kw : List Str) (l1 l2 : List Str) : ∀ a : RuleArgs,
     | error e => rfl
     | ok a' => exact ih a'
 
-/-- A value that can travel in a rule text without escaping: no comma, no equals sign. -/
-def strOk (s : Str) : Prop := ',' ∉ s ∧ '=' ∉ s
-def optOk (o : Option Str) : Prop := ∀ s, o = some s → strOk s
-def pairsOk (o : Option (List (Nat × Str))) : Prop := ∀ iv ∈ o.getD [], strOk iv.2
-
-structure RuleArgs.TextOk (a : RuleArgs) : Prop where
-  mtype : optOk a.mtype
-  sender : optOk a.sender
-  iface : optOk a.iface
-  member : optOk a.member
-  path : optOk a.path
-  pathNs : optOk a.pathNs
-  dest : optOk a.dest
-  arg0ns : optOk a.arg0ns
-  args : pairsOk a.args
-  argPaths : pairsOk a.argPaths
-
 /-- `arg=[]` and `arg=None` are the same rule. -/
 def normPairs : Option (List (Nat × Str)) → Option (List (Nat × Str))
   | some [] => none
@@ -325,48 +231,41 @@ def RuleArgs.normalize (a : RuleArgs) : RuleArgs :=
 
 theorem seg_opt (a : RuleArgs) (k0 : Str) (o : Option Str) (f : RuleArgs → Option Str → RuleArgs)
     (hnone : f a none = a)
-    (h : ∀ v, o = some v → parseItem curBusKeys a (renderItem k0 v) = .ok (f a (some v))) :
-    parseItems curBusKeys a (optItem k0 o) = .ok (f a o) := by
+    (h : ∀ v, o = some v → parseItem curBusKeys a (k0, v) = .ok (f a (some v))) :
+    parseItems curBusKeys a (optPair k0 o) = .ok (f a o) := by
   cases o with
-  | none => simp [optItem, parseItems, hnone]
-  | some v => simp [optItem, parseItems, h v rfl]
+  | none => simp [optPair, parseItems, hnone]
+  | some v => simp [optPair, parseItems, h v rfl]
 
-theorem seg_args (l : List (Nat × Str)) (hl : ∀ iv ∈ l, '=' ∉ iv.2) : ∀ a : RuleArgs,
-    parseItems curBusKeys a (l.map (fun iv => renderItem (argKey iv.1) iv.2))
+theorem seg_args (l : List (Nat × Str)) : ∀ a : RuleArgs,
+    parseItems curBusKeys a (l.map (fun iv => (argKey iv.1, iv.2)))
       = .ok (if l = [] then a else { a with args := some (a.args.getD [] ++ l) }) := by
   induction l with
   | nil => intro a; rfl
   | cons iv t ih =>
     intro a
     simp only [List.map_cons, parseItems]
-    rw [parseItem_arg a iv.1 iv.2 (hl iv (by simp))]
+    rw [parseItem_arg a iv.1 iv.2]
     simp only
-    rw [ih (fun x hx => hl x (by simp [hx]))]
+    rw [ih]
     by_cases ht : t = []
     · subst ht; simp
     · simp [ht]
 
-theorem seg_argPaths (l : List (Nat × Str)) (hl : ∀ iv ∈ l, '=' ∉ iv.2) : ∀ a : RuleArgs,
-    parseItems curBusKeys a (l.map (fun iv => renderItem (argPathKey iv.1) iv.2))
+theorem seg_argPaths (l : List (Nat × Str)) : ∀ a : RuleArgs,
+    parseItems curBusKeys a (l.map (fun iv => (argPathKey iv.1, iv.2)))
       = .ok (if l = [] then a else { a with argPaths := some (a.argPaths.getD [] ++ l) }) := by
   induction l with
   | nil => intro a; rfl
   | cons iv t ih =>
     intro a
     simp only [List.map_cons, parseItems]
-    rw [parseItem_argPath a iv.1 iv.2 (hl iv (by simp))]
+    rw [parseItem_argPath a iv.1 iv.2]
     simp only
-    rw [ih (fun x hx => hl x (by simp [hx]))]
+    rw [ih]
     by_cases ht : t = []
     · subst ht; simp
     · simp [ht]
-
-theorem closed_keys_noSep :
-    (',' ∉ "type".toList ∧ '=' ∉ "type".toList) ∧ (',' ∉ "sender".toList ∧ '=' ∉ "sender".toList)
-    ∧ (',' ∉ "interface".toList ∧ '=' ∉ "interface".toList) ∧ (',' ∉ "member".toList ∧ '=' ∉ "member".toList)
-    ∧ (',' ∉ "path".toList ∧ '=' ∉ "path".toList) ∧ (',' ∉ "path_namespace".toList ∧ '=' ∉ "path_namespace".toList)
-    ∧ (',' ∉ "destination".toList ∧ '=' ∉ "destination".toList)
-    ∧ (',' ∉ "arg0namespace".toList ∧ '=' ∉ "arg0namespace".toList) := by decide
 
 theorem argKey_noComma (i : Nat) : ',' ∉ argKey i := by
   rw [argKey_eq]
@@ -389,70 +288,40 @@ theorem argPathKey_noComma (i : Nat) : ',' ∉ argPathKey i := by
   · exact (natDigits_noSep i).1 h
   · revert h; simp
 
-theorem optItem_noComma (k : Str) (o : Option Str) (hk : ',' ∉ k) (ho : optOk o) :
-    ∀ x ∈ optItem k o, ',' ∉ x := by
-  intro x hx
-  cases o with
-  | none => simp [optItem] at hx
-  | some v =>
-    simp only [optItem, List.mem_singleton] at hx
-    subst hx
-    exact renderItem_noComma k v hk (ho v rfl).1
-
-theorem renderItems_noComma (a : RuleArgs) (hok : a.TextOk) : ∀ x ∈ renderItems a, ',' ∉ x := by
-  obtain ⟨k1, k2, k3, k4, k5, k6, k7, k8⟩ := closed_keys_noSep
-  intro x hx
-  unfold renderItems at hx
-  simp only [List.mem_append, List.mem_map] at hx
-  rcases hx with (((((((((h | h) | h) | h) | h) | h) | h) | h) | h) | h)
-  · exact optItem_noComma _ _ k1.1 hok.mtype x h
-  · exact optItem_noComma _ _ k2.1 hok.sender x h
-  · exact optItem_noComma _ _ k3.1 hok.iface x h
-  · exact optItem_noComma _ _ k4.1 hok.member x h
-  · exact optItem_noComma _ _ k5.1 hok.path x h
-  · exact optItem_noComma _ _ k6.1 hok.pathNs x h
-  · exact optItem_noComma _ _ k7.1 hok.dest x h
-  · obtain ⟨iv, hiv, rfl⟩ := h
-    exact renderItem_noComma _ _ (argKey_noComma iv.1) (hok.args iv hiv).1
-  · obtain ⟨iv, hiv, rfl⟩ := h
-    exact renderItem_noComma _ _ (argPathKey_noComma iv.1) (hok.argPaths iv hiv).1
-  · exact optItem_noComma _ _ k8.1 hok.arg0ns x h
-
 theorem or_none' {α : Type} (o : Option α) : (o <|> none) = o := by cases o <;> rfl
 
-theorem parseItems_renderItems (a : RuleArgs) (hok : a.TextOk) :
-    parseItems curBusKeys {} (renderItems a) = .ok a.normalize := by
-  obtain ⟨k1, k2, k3, k4, k5, k6, k7, k8⟩ := closed_keys_noSep
-  unfold renderItems
-  -- type
+/-- `dbus_AddMatch`'s loop over the pairs of a rule yields the rule (`arg=[]` ~ `arg=None`). -/
+theorem parseItems_renderPairs (a : RuleArgs) :
+    parseItems curBusKeys {} (renderPairs a) = .ok a.normalize := by
+  unfold renderPairs
   simp only [List.append_assoc]
   rw [parseItems_append, seg_opt _ _ a.mtype (fun r o => { r with mtype := o <|> r.mtype }) rfl
-    (fun v hv => parseItem_kw _ _ _ v .mtype k1.2 (hok.mtype v hv).2 (by decide) (by decide) rfl)]
+    (fun v _ => parseItem_kw _ _ _ v .mtype (by decide) (by decide) rfl)]
   simp only
   rw [parseItems_append, seg_opt _ _ a.sender (fun r o => { r with sender := o <|> r.sender }) rfl
-    (fun v hv => parseItem_kw _ _ _ v .sender k2.2 (hok.sender v hv).2 (by decide) (by decide) rfl)]
+    (fun v _ => parseItem_kw _ _ _ v .sender (by decide) (by decide) rfl)]
   simp only
   rw [parseItems_append, seg_opt _ _ a.iface (fun r o => { r with iface := o <|> r.iface }) rfl
-    (fun v hv => parseItem_kw _ _ _ v .iface k3.2 (hok.iface v hv).2 (by decide) (by decide) rfl)]
+    (fun v _ => parseItem_kw _ _ _ v .iface (by decide) (by decide) rfl)]
   simp only
   rw [parseItems_append, seg_opt _ _ a.member (fun r o => { r with member := o <|> r.member }) rfl
-    (fun v hv => parseItem_kw _ _ _ v .member k4.2 (hok.member v hv).2 (by decide) (by decide) rfl)]
+    (fun v _ => parseItem_kw _ _ _ v .member (by decide) (by decide) rfl)]
   simp only
   rw [parseItems_append, seg_opt _ _ a.path (fun r o => { r with path := o <|> r.path }) rfl
-    (fun v hv => parseItem_kw _ _ _ v .path k5.2 (hok.path v hv).2 (by decide) (by decide) rfl)]
+    (fun v _ => parseItem_kw _ _ _ v .path (by decide) (by decide) rfl)]
   simp only
   rw [parseItems_append, seg_opt _ _ a.pathNs (fun r o => { r with pathNs := o <|> r.pathNs }) rfl
-    (fun v hv => parseItem_kw _ _ _ v .pathNs k6.2 (hok.pathNs v hv).2 (by decide) (by decide) rfl)]
+    (fun v _ => parseItem_kw _ _ _ v .pathNs (by decide) (by decide) rfl)]
   simp only
   rw [parseItems_append, seg_opt _ _ a.dest (fun r o => { r with dest := o <|> r.dest }) rfl
-    (fun v hv => parseItem_kw _ _ _ v .dest k7.2 (hok.dest v hv).2 (by decide) (by decide) rfl)]
+    (fun v _ => parseItem_kw _ _ _ v .dest (by decide) (by decide) rfl)]
   simp only
-  rw [parseItems_append, seg_args _ (fun iv hiv => (hok.args iv hiv).2)]
+  rw [parseItems_append, seg_args]
   simp only
-  rw [parseItems_append, seg_argPaths _ (fun iv hiv => (hok.argPaths iv hiv).2)]
+  rw [parseItems_append, seg_argPaths]
   simp only
   rw [seg_opt _ _ a.arg0ns (fun r o => { r with arg0ns := o <|> r.arg0ns }) rfl
-    (fun v hv => parseItem_kw _ _ _ v .arg0ns k8.2 (hok.arg0ns v hv).2 (by decide) (by decide) rfl)]
+    (fun v _ => parseItem_kw _ _ _ v .arg0ns (by decide) (by decide) rfl)]
   obtain ⟨mtype, sender, iface, member, path, pathNs, dest, args, argPaths, arg0ns⟩ := a
   simp only [RuleArgs.normalize, or_none']
   congr 1
@@ -471,13 +340,6 @@ theorem parseItems_renderItems (a : RuleArgs) (hok : a.TextOk) :
       cases argPaths with
       | none => simp [normPairs]
       | some l' => cases l' <;> simp [normPairs]
-
-/-- `Bus.dbus_AddMatch` recovers from the client's text the constraints the client was given. -/
-theorem parse_render (a : RuleArgs) (hok : a.TextOk) (hne : renderItems a ≠ []) :
-    parseRule curBusKeys (renderRule a) = .ok a.normalize := by
-  unfold parseRule renderRule
-  rw [splitOn_join ',' _ hne (renderItems_noComma a hok)]
-  exact parseItems_renderItems a hok
 
 theorem normPairs_if {β : Type} (x : Option (List (Nat × Str))) (f : PyVal → β) (r : β) :
     (if (optPairs (normPairs x)).truthy = true then f (optPairs (normPairs x)) else r)
